@@ -330,6 +330,53 @@ func AllSites(d string, s gm.Schema) []Site {
 			}
 		}
 		add(EditRef{Kind: "add-column", Table: T, Obj: "zz_col"}, T+".col:zz_col")
+		// a column dropped together with the single-column index on it (nothing else may use the column)
+		for _, ix := range t.Indexes {
+			if len(ix.Parts) != 1 || ix.Parts[0].Col == "" || ix.Where != "" || len(ix.Include) > 0 {
+				continue
+			}
+			cn, uses := ix.Parts[0].Col, 0
+			for _, o := range t.Indexes {
+				for _, p := range o.Parts {
+					if p.Col == cn {
+						uses++
+					}
+				}
+				for _, inc := range o.Include {
+					if inc == cn {
+						uses++
+					}
+				}
+				if strings.Contains(o.Where, cn) {
+					uses++
+				}
+			}
+			for _, p := range t.PK {
+				if p.Col == cn {
+					uses++
+				}
+			}
+			for _, fk := range t.FKs {
+				for _, c := range fk.Cols {
+					if c == cn {
+						uses++
+					}
+				}
+			}
+			for _, ck := range t.Checks {
+				if strings.Contains(ck.Expr, cn) {
+					uses++
+				}
+			}
+			for _, g := range t.Cols {
+				if g.Gen != "" && strings.Contains(g.Gen, cn) {
+					uses++
+				}
+			}
+			if uses == 1 && !refCols[T+"."+cn] {
+				add(EditRef{Kind: "drop-indexed-column", Table: T, Obj: cn, Arg: ix.Name}, T+".col:"+cn, T+".idx:"+ix.Name)
+			}
+		}
 		for _, cn := range free {
 			c := t.Col(cn)
 			key := T + ".col:" + cn
@@ -375,6 +422,15 @@ func AllSites(d string, s gm.Schema) []Site {
 			sameCs := map[string]string{"latin1_swedish_ci": "latin1_bin", "utf8mb4_0900_ai_ci": "utf8mb4_unicode_ci"}[t.Collation]
 			add(EditRef{Kind: "table-charset", Table: T, Arg: other[0] + "/" + other[1]}, T+".attr:charset")
 			add(EditRef{Kind: "table-collate", Table: T, Arg: sameCs}, T+".attr:charset")
+		}
+		for _, c := range t.Cols {
+			if c.Gen != "" && d == "postgres" {
+				// the one change of a generated column PostgreSQL supports: DROP EXPRESSION, alone or together with
+				// another aspect of the column (cannot be undone: a plain column cannot be made generated)
+				add(EditRef{Kind: "drop-generated", Table: T, Obj: c.Name}, T+".col:"+c.Name)
+				add(EditRef{Kind: "drop-generated", Table: T, Obj: c.Name, Arg: "default"}, T+".col:"+c.Name)
+				add(EditRef{Kind: "drop-generated", Table: T, Obj: c.Name, Arg: "null"}, T+".col:"+c.Name)
+			}
 		}
 		for _, c := range t.Cols {
 			if c.Gen != "" && d != "postgres" { // PostgreSQL: "changing the generation expression for a column is not supported" (diff refuses)
